@@ -87,6 +87,8 @@ structure St where
   flags : Flags
   volCalc : Bool                   -- `cells._volume._calc_by_mcnp`
   dataInputs : List (Option K)     -- `problem.data_inputs`: `some k` = the data-level instance of `k`, `none` = any other input
+  realTree : List (P × Nat)        -- `cells._importance._real_tree`: particle ↦ identity of its data-block tree (dict order)
+  nextId : Nat                     -- the next fresh tree identity (trees are objects: the heap of DESIGN 3.3)
   deriving Repr
 
 inductive Err where
@@ -274,12 +276,58 @@ def tryCombineValues (close : Rat → Rat → Bool) (nv : List (P × List Rat ×
       let m := combineInner close nv p gold pair (covered ++ [p])
       (p :: m, gold) :: tryCombineValues close nv rest (covered ++ [p] ++ m)
 
-/-- `importance.py: Importance._update_values` + `_format_tree`, data-block branch: every combined set has its
-    tree in `_real_tree` and is printed once (one card per set) -/
-def impFormatData (close : Rat → Rat → Bool) (st : St) : Except Err (List MCard) :=
+/-! ### the data-block trees are objects: `_real_tree` maps every particle to ITS tree
+
+`_update_values` writes, for every set of particles printed together, the set and the gold vector into the tree of
+every particle of the set (creating the tree of a particle that has none yet); `_format_tree` then walks
+`_real_tree` and prints each tree whose particle is not printed yet.  If two particles shared one tree the second
+write would overwrite the first: identity is state, so it is modelled (tree identities are natural numbers). -/
+
+/-- `self._real_tree[particle]` (identity of the tree) -/
+def rtId (rt : List (P × Nat)) (p : P) : Option Nat := (rt.find? (fun x => x.1 == p)).map (·.2)
+
+/-- `importance.py: Importance._update_values`, `if particle not in self._real_tree: … = _generate_default_data_tree(particle)`:
+    every particle met that has no tree yet gets a NEW one (identities never change afterwards, so allocating first
+    and writing second is the interleaved loop of the code) -/
+def allocate : List (P × Nat) → Nat → List P → List (P × Nat) × Nat
+  | rt, n, [] => (rt, n)
+  | rt, n, p :: ps => if rt.any (fun x => x.1 == p) then allocate rt n ps else allocate (rt ++ [(p, n)]) (n + 1) ps
+
+/-- `importance.py: Importance._update_values`: the sequence of writes `(tree identity, (particle set, vector))` -/
+def impWrites (rt : List (P × Nat)) (gs : List (List P × List Rat)) : List (Nat × (List P × List Rat)) :=
+  gs.flatMap (fun g => g.1.filterMap (fun p => (rtId rt p).map (fun t => (t, g))))
+
+/-- what a tree holds after all the writes: the last one wins -/
+def treeAfter (writes : List (Nat × (List P × List Rat))) (t : Nat) : Option (List P × List Rat) :=
+  ((writes.filter (fun w => w.1 == t)).getLast?).map (·.2)
+
+/-- `importance.py: Importance._format_tree`, data-block branch: the loop over `self._real_tree.items()` with
+    `printed_parts` (a tree that no set wrote to — a particle outside the mode — is not modelled: skipped) -/
+def impFormatTreeData (writes : List (Nat × (List P × List Rat))) : List (P × Nat) → List P → List (List P × List Rat)
+  | [], _ => []
+  | (p, t) :: rest, printed =>
+    if printed.contains p then impFormatTreeData writes rest printed
+    else match treeAfter writes t with
+      | some g => g :: impFormatTreeData writes rest (printed ++ g.1)
+      | none => impFormatTreeData writes rest printed
+
+/-- the sets of particles printed together and their vectors (`_collect_new_values` → `_try_combine_values`) -/
+def impGroups (close : Rat → Rat → Bool) (st : St) : Except Err (List (List P × List Rat)) :=
   match impCollect st.cells st.mode with
   | .error e => .error e
-  | .ok nv => .ok ((tryCombineValues close nv nv []).map (fun g => ⟨K.imp, g.1, g.2.map some, false⟩))
+  | .ok nv => .ok (tryCombineValues close nv nv [])
+
+/-- `_real_tree` after `_update_values` -/
+def impRealTreeAfter (st : St) (gs : List (List P × List Rat)) : List (P × Nat) × Nat :=
+  allocate st.realTree st.nextId (gs.flatMap (·.1))
+
+/-- `importance.py: Importance._update_values` + `_format_tree`, data-block branch -/
+def impFormatData (close : Rat → Rat → Bool) (st : St) : Except Err (List MCard) :=
+  match impGroups close st with
+  | .error e => .error e
+  | .ok gs =>
+    let rt := (impRealTreeAfter st gs).1
+    .ok ((impFormatTreeData (impWrites rt gs) rt []).map (fun g => ⟨K.imp, g.1, g.2.map some, false⟩))
 
 /-- `format_for_mcnp_input` of the data-level instance of class `k`
     (`volume.py: Volume._update_values` adds the `NO` keyword when `not is_mcnp_calculated`) -/
@@ -333,6 +381,21 @@ def writeToFile (close : Rat → Rat → Bool) (st : St) : Except Err (List MIte
     | .error e => .error e
     | .ok m => .ok (cells ++ [MItem.blank] ++ [MItem.other] ++ [MItem.blank] ++ d ++ m ++ [MItem.blank])
 
+/-- does the data-level Importance run `_update_values` in this write? -/
+def impDataPrints (st : St) : Bool := prints false st.flags.imp (st.cells.any (fun d => hasInformation d K.imp))
+
+/-- the state after `write_to_file`: formatting creates the data-block trees of particles that had none
+    (a write that raises leaves the state alone in the model: what an error leaves behind is C15's business) -/
+def afterWrite (close : Rat → Rat → Bool) (st : St) : St :=
+  match writeToFile close st with
+  | .error _ => st
+  | .ok _ =>
+    if impDataPrints st then
+      match impGroups close st with
+      | .ok gs => { st with realTree := (impRealTreeAfter st gs).1, nextId := (impRealTreeAfter st gs).2 }
+      | .error _ => st
+    else st
+
 /-! ## loading: `cells.py: Cells.update_pointers` / `__setup_blank_cell_modifiers`, `push_to_cells`, `_clear_data` -/
 
 /-- what the parser hands over for one class: per cell the value given on the cell card, and the data-block
@@ -376,6 +439,8 @@ inductive Op where
   | setLat (i : Nat) (v : Option Nat)
   | setFill (i : Nat) (v : Option Nat)
   | setVolCalc (b : Bool)               -- `cells.allow_mcnp_volume_calc = b`
+  | write                               -- `problem.write_to_file(...)`: an observation that mutates (creates trees)
+  | observe                             -- `str(cell)`, `repr`, `cell.format_for_mcnp_input`: no effect on the state
   deriving Repr
 
 def modifyAt (cells : List Cell) (i : Nat) (f : Cell → Cell) : List Cell :=
@@ -395,7 +460,9 @@ def linkFlags (f : Flags) (c : Cell) : Flags :=
   K.all.foldl (fun g k => if c.setIn.get k then g.set k false else g) f
 
 /-- one operation; operations on a position that does not exist raise and leave the state alone -/
-def step (st : St) : Op → St × Option Err
+def step (close : Rat → Rat → Bool) (st : St) : Op → St × Option Err
+  | .write => (afterWrite close st, none)
+  | .observe => (st, none)
   | .setFlag k b => ({ st with flags := st.flags.set k b }, none)
   | .append c =>
     if st.cells.any (fun d => d.number == c.number) then (st, some .numberConflict)
@@ -430,6 +497,6 @@ def step (st : St) : Op → St × Option Err
   | .setFill i v => ({ st with cells := modifyAt st.cells i (fun c => { c with fill := v }) }, none)
   | .setVolCalc b => ({ st with volCalc := b }, none)
 
-def run (st : St) (ops : List Op) : St := ops.foldl (fun s o => (step s o).1) st
+def run (close : Rat → Rat → Bool) (st : St) (ops : List Op) : St := ops.foldl (fun s o => (step close s o).1) st
 
 end MontePyVerif.CellData
